@@ -643,6 +643,26 @@ func (e *Exec) indexAddr(fr *frame, in *ssa.IndexAddr) PtrV {
 	case SliceV:
 		arr = xv.data
 	case PtrV:
+		if len(xv.tgs) > 1 && idx.IsConst() {
+			// pointer-to-array with several guarded targets, constant index: element-wise
+			out := PtrV{}
+			okAll := true
+			for _, t := range xv.tgs {
+				if t.isNil() || t.p == nil {
+					okAll = false
+					break
+				}
+				a, isArr := (*t.p).(ArrayV)
+				if !isArr || int(idx.val) >= len(a) {
+					okAll = false
+					break
+				}
+				out.tgs = append(out.tgs, PtrTarget{g: t.g, p: &a[idx.val]})
+			}
+			if okAll {
+				return out
+			}
+		}
 		t := e.resolve(fr, in, xv)
 		if t.p == nil {
 			panic(unsupported("indexAddr through symbolic-index pointer"))
@@ -658,6 +678,27 @@ func (e *Exec) indexAddr(fr *frame, in *ssa.IndexAddr) PtrV {
 	if len(arr) > 0 {
 		if _, ok := arr[0].(*Term); ok && len(arr) <= 512 {
 			return PtrV{tgs: []PtrTarget{{arr: arr, idx: idx}}}
+		}
+	}
+	if len(arr) <= 256 {
+		// symbolic index into an array of composites: a guarded target set over the elements
+		// whose index is not excluded by the index variable's known domain
+		var tgs []PtrTarget
+		for i := range arr {
+			g := e.ts.Eq(idx, e.ts.Const(idx.width, uint64(i)))
+			if v, ok := e.domainDecides(g); ok && !v {
+				continue
+			}
+			if v, ok := e.lookupKnown(g); ok && !v {
+				continue
+			}
+			tgs = append(tgs, PtrTarget{g: g, p: &arr[i]})
+		}
+		if len(tgs) == 1 {
+			return mkPtr(tgs[0].p)
+		}
+		if len(tgs) > 1 {
+			return PtrV{tgs: tgs}
 		}
 	}
 	i := e.concretizeInt(idx, "index")
